@@ -78,6 +78,8 @@ def enc_val(v) -> str:
         return "D[" + ",".join("U[" + enc_val(k) + "," + enc_val(x) + "]" for k, x in v.items()) + "]"
     if isinstance(v, list):
         return "L[" + ",".join(enc_val(x) for x in v) + "]"
+    if isinstance(v, (set, frozenset)):        # x2: members sorted by wire form (hash-table order is not modelled)
+        return "O" + type(v).__name__ + "{items=L[" + ",".join(sorted(enc_val(x) for x in v)) + "]}"
     tn = type(v).__name__
     if tn in OPAQUE_CLASSES:                      # x3: objects of other libraries / untracked classes, known by class and text
         return "Oopaque{cls=" + enc_val(tn) + ",str=" + enc_val(str(v)) + "}"
@@ -154,6 +156,8 @@ class _P:
                 self.i = k + 1
                 fields[key] = self.val()
             self.i += 1
+            if name in ("set", "frozenset"):
+                return (set if name == "set" else frozenset)(fields["items"])
             cls, _ = _OBJ_CLASSES[name]
             if issubclass(cls, tuple):
                 return cls(**fields)
@@ -285,6 +289,8 @@ def _apply_env(env):
         fs.version_info = d["sys.version_info"]
     if "sys.maxunicode" in d:
         fs.maxunicode = d["sys.maxunicode"]
+    if "sys.implementation.name" in d:                  # x2
+        fs.implementation = types.SimpleNamespace(name=d["sys.implementation.name"])
     T.sys = fs
     if "sysconfig.get_config_var" in d:
         table = {k[0]: v for k, v in d["sysconfig.get_config_var"]}
@@ -300,9 +306,18 @@ def _apply_env(env):
     if "EXTENSION_SUFFIXES" in d:
         T.EXTENSION_SUFFIXES = d["EXTENSION_SUFFIXES"]
 
+    from packaging import _manylinux as ML                      # x2: glibc probes
+    saved_ml = {}
+    for key in ("_glibc_version_string_confstr", "_glibc_version_string_ctypes"):
+        if key in d:
+            saved_ml[key] = getattr(ML, key)
+            setattr(ML, key, (lambda v: (lambda: v))(d[key][0][1]))
+
     def undo():
         for k, v in saved.items():
             setattr(T, k, v)
+        for k, v in saved_ml.items():
+            setattr(ML, k, v)
     return undo
 
 
@@ -310,15 +325,24 @@ PLATS = ["linux_x86_64", "manylinux2014_x86_64", "any", "win_amd64", "macosx_11_
 ABIS = ["cp313", "cp313t", "cp39", "cp312d", "abi3", "none", "cp3", "cpx", "cp", "cp31\nt", "CP313T", "pypy39_pp73", "cp313td", ""]
 
 
+EXT_SUFFIXES = [".cpython-313-x86_64-linux-gnu.so", ".cpython-310-darwin.so", ".cp310-win_amd64.pyd", ".pyd", ".so",
+                ".pypy38-pp73-x86_64-linux-gnu.so", ".graalpy-38-native-x86_64-darwin.dylib", ".pyston-23-x86_64.so",
+                "", None, 3, "x.so", "cpython-313.so", ".cpython.so", "..so", ".pypy39.so", ".graalpy-38.so", ".cp3 9.x-y.so",
+                ".CPYTHON-39.so", ".cpython-3.9 x.so"]
+
+
 def _g_env(rng):
     cfgval = lambda: rng.choice([None, None, 0, 1, 4, 2, "", "1", "yes"])
     return Env([
         ("sys.version_info", tuple(rng.choice([[3, 12], [3, 13], [3, 7], [3, 2], [2, 7], [3, 0], [3], [4, 1]]))),
         ("platform_tags", [((), iter(rng.sample(PLATS, rng.choice([0, 1, 2, 3]))))]),
-        ("sysconfig.get_config_var", [((n,), cfgval()) for n in ("Py_DEBUG", "Py_GIL_DISABLED", "WITH_PYMALLOC", "Py_UNICODE_SIZE")]),
+        ("sysconfig.get_config_var", [((n,), cfgval()) for n in ("Py_DEBUG", "Py_GIL_DISABLED", "WITH_PYMALLOC", "Py_UNICODE_SIZE")]
+         + [(("py_version_nodot",), rng.choice([None, None, "313", 313, 0, "", "39", 27])),               # x2
+            (("EXT_SUFFIX",), rng.choice(EXT_SUFFIXES))]),
         ("hasattr(sys,gettotalrefcount)", rng.random() < 0.3),
         ("EXTENSION_SUFFIXES", rng.choice([[], ["_d.pyd"], [".so", "_d.pyd"], [".pyd"]])),
         ("sys.maxunicode", rng.choice([1114111, 65535])),
+        ("sys.implementation.name", rng.choice(["cpython", "cpython", "pypy", "python", "ironpython", "jython", "graalpy", "", "CPython"])),
     ])
 
 
@@ -365,7 +389,8 @@ def _g_cpython_abis(rng):
 
 
 def _g_get_config_var(rng):
-    return [_g_env(rng), rng.choice(["Py_DEBUG", "Py_GIL_DISABLED", "WITH_PYMALLOC", "Py_UNICODE_SIZE"]), rng.random() < 0.5]
+    return [_g_env(rng), rng.choice(["Py_DEBUG", "Py_GIL_DISABLED", "WITH_PYMALLOC", "Py_UNICODE_SIZE", "py_version_nodot", "EXT_SUFFIX"]),
+            rng.random() < 0.5]
 
 
 def _g_version_nodot(rng):
@@ -1053,6 +1078,157 @@ SYM_HASH_FUNCS = {"Marker.__hash__": "packaging.markers"}
 ENV_FUNCS = {"compatible_tags", "cpython_tags", "_cpython_abis", "_get_config_var"}
 
 
+# ------------------------------------------------------------------------------------------------ x2: second round
+def _tag_obj(rng):
+    from packaging import tags as T
+    return T.Tag(rng.choice(["cp313", "CP39", "py3", "pp310", ""]), rng.choice(ABIS), rng.choice(PLATS))
+
+
+def _g_tag_method(rng):
+    return [_tag_obj(rng)]
+
+
+def _g_two_tags(rng):
+    from packaging import tags as T
+    a = _tag_obj(rng)
+    k = rng.random()
+    if k < 0.35:
+        b = T.Tag(_case(a.interpreter, rng), _case(a.abi, rng), _case(a.platform, rng))     # equal, other spelling
+    elif k < 0.7:                                                                            # one component differs
+        parts = [a.interpreter, a.abi, a.platform]
+        i = rng.randrange(3)
+        parts[i] = rng.choice([parts[i] + "x", parts[i][:-1], rng.choice(PLATS)])
+        b = T.Tag(*parts)
+    elif k < 0.9:
+        b = _tag_obj(rng)
+    else:
+        b = rng.choice([None, 1, "cp313-cp313-any", (a.interpreter, a.abi, a.platform)])
+    return [a, b]
+
+
+def _g_canonicalize_name(rng):
+    from props import C13 as P13
+    while True:
+        s = P13.random_name(rng)
+        if "Σ" not in s:
+            return [s, rng.random() < 0.5]
+
+
+def _g_is_normalized_name(rng):
+    return [_g_canonicalize_name(rng)[0]]
+
+
+def _g_parse_tag(rng):
+    from props import C14 as P14
+    while True:
+        t = P14.rand_tag_string(rng)
+        if t.isascii():                        # Tag.__init__ lower-cases with the ASCII run-time function
+            return [t]
+
+
+def _g_parse_sdist(rng):
+    from props import C14 as P14
+    from gen import versions as GV
+    while True:
+        sd = P14.sdist_struct(rng)
+        q = rng.random()
+        if q < 0.5:
+            f = P14.assemble_sdist(sd)
+        elif q < 0.65:
+            f = P14.assemble_sdist(sd, version_text=rng.choice(P14.BAD_VERSIONS + [GV.spell(rng, sd["ver"])]))
+        elif q < 0.85:
+            f = GV.malformed(rng, P14.assemble_sdist(sd))
+        else:
+            f = P14.assemble_sdist(sd)[: -len(sd["ext"])] + rng.choice([".tgz", ".tar", ".ZIP", ".tar.gz\n", "", ".whl", ".zip.zip"])
+        if "Σ" not in f:
+            return [f]
+
+
+def _g_parse_wheel(rng):
+    from props import C14 as P14
+    from gen import versions as GV
+    while True:
+        w = P14.wheel_struct(rng)
+        r = rng.random()
+        if r < 0.35:
+            f = P14.assemble_wheel(w)
+        elif r < 0.55:
+            f = P14.spelled_wheel(rng, w)
+        elif r < 0.85:
+            kind = rng.choice(["extension", "parts", "name", "name_trailing_newline", "build", "build_unicode_digit", "version"])
+            f = P14.damage_wheel(rng, w, kind)[0]
+        else:
+            f = GV.malformed(rng, P14.assemble_wheel(w))
+        # the tag part must be ASCII (run-time restriction of Tag.__init__); the name part may be anything
+        if "Σ" not in f and "-".join(f.split("-")[1:]).isascii():
+            return [f]
+
+
+def _g_normalize_string(rng):
+    return [rng.choice(["linux-x86_64", "macosx-10.9-universal2", "win amd64", "a.b-c d", "", "_", "É.x", "a\tb", "manylinux_2_17"])]
+
+
+def _g_env_only(rng):
+    return [_g_env(rng)]
+
+
+def _g_interpreter_version(rng):
+    return [_g_env(rng), rng.random() < 0.5]
+
+
+def _g_generic_tags(rng):
+    return [_g_env(rng), rng.choice([None, None, "", "cp313", "PP39", "ip2"]), _g_abis(rng), _g_plats(rng), rng.random() < 0.3]
+
+
+GLIBC_TEXTS = ["2.17", "2.5", "2.31-0ubuntu9", "2", "2.", ".5", "x2.4", "12.345", "2.17\n", "", " 2.17", "2.17.1", "02.017", "2_17"]
+
+
+def _g_parse_glibc(rng):
+    return [rng.choice(GLIBC_TEXTS)]
+
+
+def _g_glibc_string(rng):
+    val = lambda: rng.choice([None, None, "", "2.17", "2.31"])
+    return [Env([("_glibc_version_string_confstr", [((), val())]), ("_glibc_version_string_ctypes", [((), val())])])]
+
+
+def _g_mac_arch(rng):
+    return [rng.choice(["x86_64", "arm64", "ppc64", "ppc", "i386", "Power", "", "PPC"]), rng.random() < 0.5]
+
+
+def _g_mac_formats(rng):
+    ver = rng.choice([(10, 3), (10, 4), (10, 5), (10, 6), (10, 7), (10, 15), (11, 0), (12, 3), (9, 9), (10,), (10, 4, 1), ()])
+    return [ver, rng.choice(["x86_64", "i386", "ppc64", "ppc", "arm64", "intel", "universal2", "", "X86_64"])]
+
+
+FUNCS.update({
+    "_mac_arch": ("packaging.tags", "_mac_arch", _g_mac_arch),
+    "_mac_binary_formats": ("packaging.tags", "_mac_binary_formats", _g_mac_formats),
+    "_parse_glibc_version": ("packaging._manylinux", "_parse_glibc_version", _g_parse_glibc),
+    "_glibc_version_string": ("packaging._manylinux", "_glibc_version_string", _g_glibc_string),
+})
+ENV_FUNCS |= {"_glibc_version_string"}
+ENV_FUNCS |= {"interpreter_name", "interpreter_version", "_generic_abi", "generic_tags", "sys_tags"}
+
+FUNCS.update({
+    "_normalize_string": ("packaging.tags", "_normalize_string", _g_normalize_string),
+    "interpreter_name": ("packaging.tags", "interpreter_name", _g_env_only),
+    "interpreter_version": ("packaging.tags", "interpreter_version", _g_interpreter_version),
+    "_generic_abi": ("packaging.tags", "_generic_abi", _g_env_only),
+    "generic_tags": ("packaging.tags", "generic_tags", _g_generic_tags),
+    "sys_tags": ("packaging.tags", "sys_tags", _g_interpreter_version),
+    "canonicalize_name": ("packaging.utils", "canonicalize_name", _g_canonicalize_name),
+    "is_normalized_name": ("packaging.utils", "is_normalized_name", _g_is_normalized_name),
+    "parse_tag": ("packaging.tags", "parse_tag", _g_parse_tag),
+    "parse_sdist_filename": ("packaging.utils", "parse_sdist_filename", _g_parse_sdist),
+    "parse_wheel_filename": ("packaging.utils", "parse_wheel_filename", _g_parse_wheel),
+    "_BaseVersion.__ne__": ("packaging.version", "_BaseVersion.__ne__", _g_two_versions),
+    "Tag.__str__": ("packaging.tags", "Tag.__str__", _g_tag_method),
+    "Tag.__eq__": ("packaging.tags", "Tag.__eq__", _g_two_tags),
+    "Tag.__hash__": ("packaging.tags", "Tag.__hash__", _g_tag_method),
+})
+
+
 class _Src:
     def cases(self, rng, n, names):
         """n `src.call` cases spread over the named functions"""
@@ -1090,16 +1266,15 @@ class _Src:
                 elif p_.kind != p_.KEYWORD_ONLY:
                     pos.append(v)
             kw = {p_.name: v for p_, v in zip(params, vals) if p_.kind == p_.KEYWORD_ONLY}
-            if name in STATE_FUNCS:
-                import warnings
-                with warnings.catch_warnings():
-                    warnings.simplefilter("ignore")
-                    r = f(*pos, **kw)
-                return "ok " + enc_val((r, pos[0]))
-            r = f(*pos, **kw)
-            if name.endswith(".__init__"):
-                r = pos[0]                     # x3: the translated `__init__` hands back the initialised object
-            return "ok " + enc_val(r)          # a generator's body runs here, inside the try
+            import warnings
+            with warnings.catch_warnings():
+                warnings.simplefilter("ignore")                  # x2: warnings.warn(...) of the library is not an answer
+                r = f(*pos, **kw)
+                if name in STATE_FUNCS:
+                    return "ok " + enc_val((r, pos[0]))
+                if name.endswith(".__init__"):
+                    r = pos[0]                     # x3: the translated `__init__` hands back the initialised object
+                return "ok " + enc_val(r)          # a generator's body runs here, inside the try
         except RecursionError:
             return core.RESOURCE_LIMIT
         except Exception as e:
